@@ -1,10 +1,9 @@
 (* Proofs/SerdeJsonProofs.v -- C18: the serde_json bridge.
    serde_json -> json-syntax -> serde_json is the identity on every well-formed serde_json
-   value outside K6; json-syntax -> serde_json -> json-syntax preserves a duplicate-free
-   value with 64-bit / finite-double numbers up to entry order and number spelling outside
-   K5; from_serde_json never panics and into_serde_json does not panic outside K3.  The
-   dependencies (ryu printing, serde_json's number parser, lexical's lossy parser) enter as
-   explicit hypotheses. *)
+   value; json-syntax -> serde_json -> json-syntax preserves a duplicate-free value with
+   64-bit / finite-double numbers up to entry order and number spelling; neither direction
+   panics.  The one dependency hypothesis: ryu prints a finite double as a valid non-integer
+   spelling that reads back (correctly rounded) to the same double. *)
 From Coq Require Import SpecFloat Sorting.Permutation.
 From JsonSyntax Require Import Base.Prelude Base.Value Base.Float64 Model.Compare Spec.Multimap
   Spec.EcmaNumber Spec.NumSpelling Spec.SerdeData Spec.SerdeJsonValue Spec.SerdeRoundTrip
@@ -108,13 +107,9 @@ Proof.
 Qed.
 
 Section Proofs.
-  Variable lossy : list N -> spec_float.
-  Variable sj_parse : list N -> option spec_float.
   Variable fmt_ryu : spec_float -> list N.
 
   Notation from_sj := (from_sj fmt_ryu).
-  Notation into_sj := (into_sj lossy sj_parse).
-  Notation number_into_sj := (number_into_sj lossy sj_parse).
   Notation number_from_sj := (number_from_sj fmt_ryu).
 
   (* ---------------------------------------------------------------- named fixpoints *)
@@ -158,23 +153,14 @@ Section Proofs.
     forall x, sf_is_finite x = true -> is_f64 x ->
       valid_number (fmt_ryu x) = true /\ is_int64 (fmt_ryu x) = false /\ dbl (fmt_ryu x) = x.
 
-  Notation sj_hyp := (sj_parse_exact_in_fast_range sj_parse).
-
-  (* whenever serde_json's parser refuses a number whose nearest double is finite, the lossy
-     parser still answers a finite double *)
-  Definition fallback_finite : Prop :=
-    forall n, valid_number n = true -> is_int64 n = false -> sf_is_finite (dbl n) = true ->
-      sj_parse n = None -> sf_is_finite (lossy n) = true.
-
   (* ================================================================== *)
   (* serde_json -> json-syntax -> serde_json                             *)
   (* ================================================================== *)
   Lemma number_there_and_back n :
-    ryu_round_trips -> sj_hyp ->
-    wf_sjnum n = true -> K6 fmt_ryu (JNum n) = false ->
-    exists s, number_from_sj n = Ok s /\ number_into_sj s = Ok n.
+    ryu_round_trips -> wf_sjnum n = true ->
+    exists s, number_from_sj n = Ok s /\ number_into_sj s = JNum n.
   Proof.
-    intros Hryu Hsj Hwf Hk. unfold SerdeValue.number_from_sj, SerdeValue.number_into_sj.
+    intros Hryu Hwf. unfold SerdeValue.number_from_sj, SerdeValue.number_into_sj.
     destruct n as [z|z|x]; cbn [sjnum_to_string wf_sjnum] in *.
     - apply andb_true_iff in Hwf as [H0 H1]. apply Z.leb_le in H0. apply Z.ltb_lt in H1.
       rewrite valid_number_fmt_int. exists (fmt_int z). split; [reflexivity|].
@@ -187,8 +173,7 @@ Section Proofs.
       destruct (Hryu x Hf (or_introl Hc)) as (Hv & Hi & Hd). rewrite Hv.
       exists (fmt_ryu x). split; [reflexivity|].
       apply is_int64_false in Hi as Hi'. destruct Hi' as [Hi64 Hu64]. rewrite Hu64, Hi64.
-      cbn [K6] in Hk. apply negb_false_iff in Hk.
-      rewrite (Hsj (fmt_ryu x) Hv Hi Hk), Hd, Hf. reflexivity.
+      rewrite Hd, Hf. reflexivity.
   Qed.
 
   Definition tab_good (j : sj) : Prop := exists v, from_sj j = Ok v /\ into_sj v = Ok j.
@@ -212,52 +197,31 @@ Section Proofs.
       apply His.
   Qed.
 
-  Lemma K6_arr l : K6 fmt_ryu (JArr l) = false <-> Forall (fun x => K6 fmt_ryu x = false) l.
-  Proof.
-    cbn [K6]. rewrite Forall_forall. split.
-    - intros H x Hx. destruct (K6 fmt_ryu x) eqn:E; auto.
-      assert (existsb (K6 fmt_ryu) l = true) by (apply existsb_exists; eauto). congruence.
-    - intros H. destruct (existsb (K6 fmt_ryu) l) eqn:E; auto.
-      apply existsb_exists in E as (x & Hx & E). rewrite (H x Hx) in E. discriminate.
-  Qed.
-
-  Lemma K6_obj es :
-    K6 fmt_ryu (JObj es) = false <-> Forall (fun e : list N * sj => K6 fmt_ryu (snd e) = false) es.
-  Proof.
-    cbn [K6]. rewrite Forall_forall. split.
-    - intros H e He. destruct (K6 fmt_ryu (snd e)) eqn:E; auto.
-      assert (existsb (fun e : list N * sj => K6 fmt_ryu (snd e)) es = true)
-        by (apply existsb_exists; eauto). congruence.
-    - intros H. destruct (existsb _ es) eqn:E; auto.
-      apply existsb_exists in E as (e & He & E). rewrite (H e He) in E. discriminate.
-  Qed.
-
   Theorem there_and_back_id :
-    ryu_round_trips -> sj_hyp ->
-    forall j, wf_sj j = true -> K6 fmt_ryu j = false ->
-    there_and_back lossy sj_parse fmt_ryu j = Ok j.
+    ryu_round_trips ->
+    forall j, wf_sj j = true -> there_and_back fmt_ryu j = Ok j.
   Proof.
-    intros Hryu Hsj. unfold there_and_back.
-    assert (G : forall j, wf_sj j = true -> K6 fmt_ryu j = false -> tab_good j).
-    { induction j as [| b | n | s | l IH | es IH] using sj_ind'; intros Hwf Hk.
+    intros Hryu. unfold there_and_back.
+    assert (G : forall j, wf_sj j = true -> tab_good j).
+    { induction j as [| b | n | s | l IH | es IH] using sj_ind'; intros Hwf.
       - exists VNull. split; reflexivity.
       - exists (VBool b). split; reflexivity.
-      - destruct (number_there_and_back n Hryu Hsj Hwf Hk) as (s & Hs & Hb).
+      - destruct (number_there_and_back n Hryu Hwf) as (s & Hs & Hb).
         exists (VNum s). cbn [SerdeValue.from_sj SerdeValue.into_sj]. rewrite Hs, Hb.
         split; reflexivity.
       - exists (VStr s). split; reflexivity.
-      - cbn [wf_sj] in Hwf. rewrite forallb_forall in Hwf. apply K6_arr in Hk.
+      - cbn [wf_sj] in Hwf. rewrite forallb_forall in Hwf.
         assert (Hg : Forall tab_good l) by (rewrite Forall_forall in *; auto).
         destruct (tab_list l Hg) as (vs & Hf & Hi). exists (VArr vs).
         rewrite from_arr_eq, Hf, into_arr_eq, Hi. split; reflexivity.
       - cbn [wf_sj] in Hwf. apply andb_true_iff in Hwf as [Hs Hwf].
-        rewrite forallb_forall in Hwf. apply K6_obj in Hk.
+        rewrite forallb_forall in Hwf.
         assert (Hg : Forall (fun e : list N * sj => tab_good (snd e)) es)
           by (rewrite Forall_forall in *; auto).
         destruct (tab_entries es Hg) as (ws & Hf & Hi). exists (VObj ws).
         rewrite from_obj_eq, Hf, into_obj_eq, Hi. split; [reflexivity|].
         rewrite bt_fold_sorted by exact Hs. reflexivity. }
-    intros j Hwf Hk. destruct (G j Hwf Hk) as (v & Hf & Hi). rewrite Hf. exact Hi.
+    intros j Hwf. destruct (G j Hwf) as (v & Hf & Hi). rewrite Hf. exact Hi.
   Qed.
 
   (* ================================================================== *)
@@ -296,61 +260,37 @@ Section Proofs.
   Qed.
 
   (* ================================================================== *)
-  (* into_serde_json does not panic outside K3                            *)
+  (* into_serde_json never panics                                        *)
   (* ================================================================== *)
-  Lemma number_into_total n :
-    fallback_finite -> valid_number n = true -> K3num n = false ->
-    exists m, number_into_sj n = Ok m.
+  Theorem into_sj_total : forall v, exists j, into_sj v = Ok j.
   Proof.
-    intros Hfb Hv Hk. unfold SerdeValue.number_into_sj.
-    destruct (parse_u64 n) eqn:Hu; [eexists; reflexivity|].
-    destruct (parse_i64 n) eqn:Hi; [eexists; reflexivity|].
-    destruct (sj_parse n) eqn:Hp; [eexists; reflexivity|].
-    assert (Hint : is_int64 n = false) by (apply is_int64_false; auto).
-    unfold K3num in Hk. rewrite Hint in Hk. cbn in Hk. apply negb_false_iff in Hk.
-    rewrite (Hfb n Hv Hint Hk Hp). eexists; reflexivity.
-  Qed.
-
-  Theorem into_sj_total : fallback_finite ->
-    forall v, wf_nums v = true -> K3 v = false -> exists j, into_sj v = Ok j.
-  Proof.
-    intros Hfb. unfold wf_nums, K3.
-    induction v as [| b | n | s | l IH | es IH] using value_ind'; intros Hw Hk.
-    - eexists; reflexivity.
-    - eexists; reflexivity.
-    - cbn [SerdeValue.into_sj]. apply some_num_false in Hk. cbn in Hw, Hk.
-      destruct (number_into_total n Hfb Hw) as [m ->]; [destruct (K3num n); auto; discriminate|].
-      eexists; reflexivity.
-    - eexists; reflexivity.
-    - apply all_nums_arr in Hw. apply some_num_false in Hk. apply all_nums_arr in Hk.
-      rewrite into_arr_eq.
+    induction v as [| b | n | s | l IH | es IH] using value_ind'; try (eexists; reflexivity).
+    - rewrite into_arr_eq.
       assert (exists js, into_list l = Ok js) as [js ->].
-      { induction IH as [|x r Hx _ IHr]; [exists []; reflexivity|].
-        inversion Hw; subst. inversion Hk; subst.
-        destruct Hx as [j Hj]; [assumption|apply some_num_false; assumption|].
-        destruct IHr as [js Hjs]; [assumption|assumption|].
+      { induction IH as [|x r [j Hj] _ [js Hjs]]; [exists []; reflexivity|].
         exists (j :: js). cbn [into_list]. rewrite Hj, Hjs. reflexivity. }
       eexists; reflexivity.
-    - apply all_nums_obj in Hw. apply some_num_false in Hk. apply all_nums_obj in Hk.
-      rewrite into_obj_eq. generalize (@nil (list N * sj)).
-      induction IH as [|[k x] r Hx _ IHr]; intros m; [eexists; reflexivity|].
-      inversion Hw; subst. inversion Hk; subst. cbn [snd] in *.
-      destruct Hx as [j Hj]; [assumption|apply some_num_false; assumption|].
-      cbn [into_entries]. rewrite Hj. cbn [obind]. apply IHr; assumption.
+    - rewrite into_obj_eq. generalize (@nil (list N * sj)).
+      induction IH as [|[k x] r [j Hj] _ IHr]; intros m; [eexists; reflexivity|].
+      cbn [snd] in Hj. cbn [into_entries]. rewrite Hj. cbn [obind]. apply IHr.
+  Qed.
+
+  (* a magnitude beyond the doubles becomes null (serde_json::Value::from(f64)) *)
+  Lemma overflow_is_null n : K3num n = true -> into_sj (VNum n) = Ok JNull.
+  Proof.
+    unfold K3num. intros H. apply andb_true_iff in H as [Hi Hf].
+    apply negb_true_iff in Hi, Hf. apply is_int64_false in Hi as [Hi Hu].
+    cbn [SerdeValue.into_sj]. unfold SerdeValue.number_into_sj. rewrite Hu, Hi, Hf. reflexivity.
   Qed.
 
   (* ================================================================== *)
   (* json-syntax -> serde_json -> json-syntax                            *)
   (* ================================================================== *)
-  Definition p_bt (n : list N) : bool := valid_number n && num64 n && negb (K5num n).
-
   Lemma number_back_and_there n :
-    ryu_round_trips -> sj_hyp -> p_bt n = true ->
-    exists m s, number_into_sj n = Ok m /\ number_from_sj m = Ok s /\ num_pres n s = true.
+    ryu_round_trips -> num64 n = true ->
+    exists m s, number_into_sj n = JNum m /\ number_from_sj m = Ok s /\ num_pres n s = true.
   Proof.
-    intros Hryu Hsj Hp. unfold p_bt in Hp.
-    apply andb_true_iff in Hp as [Hp H5]. apply andb_true_iff in Hp as [Hv H64].
-    apply negb_true_iff in H5.
+    intros Hryu H64.
     unfold SerdeValue.number_into_sj, SerdeValue.number_from_sj.
     destruct (parse_u64 n) as [z|] eqn:Hu.
     - exists (PosInt z), (fmt_int z). cbn [sjnum_to_string]. rewrite valid_number_fmt_int.
@@ -364,9 +304,7 @@ Section Proofs.
       + assert (Hint : is_int64 n = false) by (apply is_int64_false; auto).
         assert (Hf : sf_is_finite (dbl n) = true).
         { unfold num64 in H64. rewrite Hint in H64. exact H64. }
-        assert (Hex : sj_exact n = true).
-        { unfold K5num in H5. rewrite Hint in H5. cbn in H5. apply negb_false_iff in H5. exact H5. }
-        rewrite (Hsj n Hv Hint Hex), Hf.
+        rewrite Hf.
         destruct (Hryu (dbl n) Hf (or_intror (ex_intro _ n eq_refl))) as (Hrv & Hri & Hrd).
         exists (SFloat (dbl n)), (fmt_ryu (dbl n)). cbn [sjnum_to_string]. rewrite Hrv.
         repeat split; try reflexivity.
@@ -439,24 +377,17 @@ Section Proofs.
   Qed.
 
   Theorem back_and_there_preserves :
-    ryu_round_trips -> sj_hyp ->
-    forall v, wf_nums v = true -> nodup_keysb v = true -> nums64 v = true -> K5 v = false ->
+    ryu_round_trips ->
+    forall v, nodup_keysb v = true -> nums64 v = true ->
     exists j w, into_sj v = Ok j /\ from_sj j = Ok w /\ detour_ok v w = true.
   Proof.
-    intros Hryu Hsj v Hw Hd H64 H5.
-    assert (Hp : all_nums p_bt v = true).
-    { unfold p_bt.
-      rewrite (all_nums_and (fun n => valid_number n && num64 n) (fun n => negb (K5num n))).
-      rewrite (all_nums_and valid_number num64).
-      unfold wf_nums in Hw. unfold nums64 in H64. apply some_num_false in H5.
-      rewrite Hw, H64, H5. reflexivity. }
-    clear Hw H64 H5. revert Hp Hd.
-    change (all_nums p_bt v = true -> nodup_keysb v = true -> bt_good v).
+    intros Hryu v Hd Hp. unfold nums64 in Hp. revert Hp Hd.
+    change (all_nums num64 v = true -> nodup_keysb v = true -> bt_good v).
     induction v as [| b | n | s | l IH | es IH] using value_ind'; intros Hp Hd.
     - exists JNull, VNull. repeat split.
     - exists (JBool b), (VBool b). repeat split. unfold vrel. cbn. apply Bool.eqb_reflx.
-    - destruct (number_back_and_there n Hryu Hsj Hp) as (m & s & Hi & Hf & Hr).
-      exists (JNum m), (VNum s). cbn [SerdeValue.into_sj SerdeValue.from_sj]. rewrite Hi. cbn [obind].
+    - destruct (number_back_and_there n Hryu Hp) as (m & s & Hi & Hf & Hr).
+      exists (JNum m), (VNum s). cbn [SerdeValue.into_sj SerdeValue.from_sj]. rewrite Hi.
       rewrite Hf. repeat split. exact Hr.
     - exists (JStr s), (VStr s). repeat split. unfold vrel. cbn. apply str_eqb_refl.
     - apply all_nums_arr in Hp. cbn [nodup_keysb] in Hd. rewrite forallb_forall in Hd.
